@@ -1,0 +1,8 @@
+//go:build !verif
+
+package vm
+
+import "github.com/risor-io/risor/op"
+
+// verifTrace is a no-op unless the repository is built with `-tags verif`.
+func (vm *VirtualMachine) verifTrace(op.Code) {}
